@@ -569,6 +569,9 @@ def gen_scenario(rng, want=None, forbid=()):
         # %array and serialized tables do not exist for C++ scanners
         sc.array = False
         sc.yylmax = None
+        if 'user_input' not in want:
+            # half of the C++ scanners keep yyFlexLexer::LexerInput and read a simulated std::streambuf
+            sc.user_input = rng.random() < 0.5
     if sc.fulltbl() and sc.interactive in ('interactive', 'always-interactive'):
         sc.interactive = rng.choice([None, 'batch', 'never-interactive'])
     return sc
